@@ -2,7 +2,6 @@ package cfg
 
 import (
 	"fmt"
-	"os"
 	"net/url"
 	"reflect"
 	"regexp"
@@ -12,10 +11,10 @@ import (
 
 	"github.com/prometheus/common/promslog"
 	"github.com/prometheus/prometheus/config"
-	"github.com/prometheus/prometheus/model/labels"
 	_ "github.com/prometheus/prometheus/discovery/dns"
 	_ "github.com/prometheus/prometheus/discovery/file"
 	_ "github.com/prometheus/prometheus/discovery/http"
+	"github.com/prometheus/prometheus/model/labels"
 	"pgregory.net/rapid"
 
 	"verifharness/internal/ev"
@@ -111,9 +110,9 @@ func yemit(b *strings.Builder, v any, indent int) {
 // ---- generator ---------------------------------------------------------------------------
 
 type c49Case struct {
-	YAML     string
-	Sections int  // top-level sections present
-	Relabels int  // relabel rules
+	YAML      string
+	Sections  int  // top-level sections present
+	Relabels  int  // relabel rules
 	NonDefDur bool // a non-default duration somewhere
 }
 
@@ -124,7 +123,9 @@ type c49Gen struct {
 	legacy   bool // global metric_name_validation_scheme: legacy
 }
 
-func (g *c49Gen) chance(label string, n int) bool { return rapid.IntRange(0, n-1).Draw(g.t, label) == 0 }
+func (g *c49Gen) chance(label string, n int) bool {
+	return rapid.IntRange(0, n-1).Draw(g.t, label) == 0
+}
 
 // lossy decides whether a field gets the explicit zero value that is known not to survive
 // printing (see c49OmitemptyDefaulted): kept rare so that the known finding stays a small
@@ -908,6 +909,7 @@ func genC49(t *rapid.T) c49Case {
 var (
 	c49RegexpType = reflect.TypeOf((*regexp.Regexp)(nil))
 	c49URLType    = reflect.TypeOf((*url.URL)(nil))
+	c49LabelsType = reflect.TypeOf(labels.Labels{})
 )
 
 // c49Diff returns the path of the first difference between a and b, or "".
@@ -920,6 +922,13 @@ func c49Diff(a, b reflect.Value, path string) string {
 	}
 	if a.Type() != b.Type() {
 		return fmt.Sprintf("%s (type %s vs %s)", path, a.Type(), b.Type())
+	}
+	if a.Type() == c49LabelsType && a.CanInterface() {
+		la, lb := a.Interface().(labels.Labels), b.Interface().(labels.Labels)
+		if !labels.Equal(la, lb) {
+			return fmt.Sprintf("%s (%s vs %s)", path, la, lb)
+		}
+		return ""
 	}
 	switch a.Kind() {
 	case reflect.Ptr:
@@ -1091,22 +1100,20 @@ func runC49(c c49Case, r *ev.Rec) error {
 // The predicate is on the loaded input: the differing field is one of the listed ones
 // and its value in the first load is the zero value.
 var c49OmitemptyDefaulted = map[string]bool{
-	"Config.OTLPConfig.LabelNameUnderscoreSanitization":                     true, // default true
-	"Config.OTLPConfig.LabelNamePreserveMultipleUnderscores":                true, // default true
-	"Config.RemoteReadConfigs[].FilterExternalLabels":                       true, // default true
-	"Config.RemoteReadConfigs[].ChunkedReadLimit":                           true, // default 5e7
-	"Config.RemoteReadConfigs[].RemoteTimeout":                              true, // default 1m
-	"Config.RemoteWriteConfigs[].RemoteTimeout":                             true, // default 30s
-	"Config.RemoteWriteConfigs[].MetadataConfig.MaxSamplesPerSend":          true, // default 2000
-	"Config.RemoteWriteConfigs[].MetadataConfig.Send":                       true, // default true; lost when the whole metadata_config block is zero-valued (omitempty on the block)
-	"Config.RemoteWriteConfigs[].MetadataConfig.SendInterval":               true, // default 1m; same
-	"Config.RemoteWriteConfigs[].QueueConfig.BatchSendDeadline":             true, // default 5s
-	"Config.RemoteWriteConfigs[].QueueConfig.MinBackoff":                    true, // default 30ms
-	"Config.RemoteWriteConfigs[].QueueConfig.MaxBackoff":                    true, // default 5s
-	"Config.AlertingConfig.AlertmanagerConfigs[].Scheme":                    true, // default http
-	"Config.AlertingConfig.AlertmanagerConfigs[].Timeout":                   true, // default 10s
-	"Config.ScrapeConfigs[].MetricsPath":                                    true, // default /metrics
-	"Config.ScrapeConfigs[].Scheme":                                         true, // default http
+	"Config.OTLPConfig.LabelNameUnderscoreSanitization":            true, // default true
+	"Config.OTLPConfig.LabelNamePreserveMultipleUnderscores":       true, // default true
+	"Config.RemoteReadConfigs[].FilterExternalLabels":              true, // default true
+	"Config.RemoteReadConfigs[].ChunkedReadLimit":                  true, // default 5e7
+	"Config.RemoteReadConfigs[].RemoteTimeout":                     true, // default 1m
+	"Config.RemoteWriteConfigs[].RemoteTimeout":                    true, // default 30s
+	"Config.RemoteWriteConfigs[].MetadataConfig.MaxSamplesPerSend": true, // default 2000
+	"Config.RemoteWriteConfigs[].MetadataConfig.Send":              true, // default true; lost when the whole metadata_config block is zero-valued (omitempty on the block)
+	"Config.RemoteWriteConfigs[].QueueConfig.BatchSendDeadline":    true, // default 5s
+	"Config.RemoteWriteConfigs[].QueueConfig.MinBackoff":           true, // default 30ms
+	"Config.AlertingConfig.AlertmanagerConfigs[].Scheme":           true, // default http
+	"Config.AlertingConfig.AlertmanagerConfigs[].Timeout":          true, // default 10s
+	"Config.ScrapeConfigs[].MetricsPath":                           true, // default /metrics
+	"Config.ScrapeConfigs[].Scheme":                                true, // default http
 }
 
 // Root cause 2, "external-label-dollar-reexpanded": Load expands ${VAR} / $VAR in external
@@ -1136,10 +1143,6 @@ func c49KnownLoss(diff string, c1 *config.Config) string {
 	path := c49IndexRe.ReplaceAllString(m[1], "[]")
 	zero := m[2] == "false" || m[2] == "0" || m[2] == `""`
 	if zero && c49OmitemptyDefaulted[path] {
-		return c49SigOmitempty
-	}
-	if zero && os.Getenv("C49_DISCOVER") != "" {
-		fmt.Println("DISCOVER", path, m[2], m[3])
 		return c49SigOmitempty
 	}
 	return ""
